@@ -7,7 +7,8 @@
 (* declares one field of its own), and two aliases whose targets may be    *)
 (* classes or each other (alias cycles included).  The variable's type is  *)
 (* a class or alias, plain, as array element (T[], indexed v[1]) or as map *)
-(* value (table<string,T>, indexed v["k"]).                                *)
+(* value (table<string,T>, indexed v["k"]); the wrapper is written on the  *)
+(* ---@type line or inside the alias that names the class.                 *)
 (* Members(T) = least fixed point over aliases (with a visited set: an     *)
 (* alias cycle denotes no type) and over parents.                          *)
 (***************************************************************************)
@@ -22,9 +23,11 @@ VARIABLES parents,  \* [Classes -> SUBSET Classes]
           shared,   \* SUBSET Classes : classes that declare the field "fshared" besides their own field
           alias,    \* [Aliases -> Classes \cup Aliases]
           ty,       \* the type name the variable is annotated with
-          wrap
+          wrap,
+          where     \* where the wrapper is written: "type" = on the ---@type line (X[]), "alias" = in the alias that
+                    \* names the class (---@alias X KA[] ... ---@type X); the variable is indexed either way
 
-vars == <<parents, shared, alias, ty, wrap>>
+vars == <<parents, shared, alias, ty, wrap, where>>
 
 \* ancestors of a class, itself included (reflexive-transitive closure; terminates on cycles)
 RECURSIVE Up(_, _)
@@ -57,6 +60,8 @@ Init == /\ parents \in [Classes -> SUBSET Classes]
         /\ alias \in AliasCfgs
         /\ ty \in Classes \cup Aliases
         /\ wrap \in Wrappers
+        /\ where \in {"type", "alias"}
+        /\ (where = "alias" => ty \in Aliases /\ wrap # "plain" /\ Resolve(ty, {}) # "none")
         \* aliases matter only when the variable is typed through one
         /\ (ty \in Classes => alias = [a \in Aliases |-> CHOOSE c \in Classes : TRUE])
         /\ (Level = "quick" => (wrap = "plain" \/ shared = {}))
@@ -69,7 +74,7 @@ MembersMonotone == \A c \in Classes : OwnField(c) \in Members => c \in Ancestors
 SelfMember == Target # "none" => OwnField(Target) \in Members
 CycleSafe == Target \in Classes \cup {"none"}
 
-Emit == PrintT("@@J " \o ToJson([fam |-> "classgraph", parents |-> parents, shared |-> shared, alias |-> alias, ty |-> ty, wrap |-> wrap,
+Emit == PrintT("@@J " \o ToJson([fam |-> "classgraph", parents |-> parents, shared |-> shared, alias |-> alias, ty |-> ty, wrap |-> wrap, where |-> where,
                                  target |-> Target, members |-> Members,
                                  decl |-> [m \in Members |-> Declarers(m)]]))
 =============================================================================
